@@ -208,6 +208,56 @@ def run(ctx):
                     sv2, _ = SC.parse_model(eng.model([line2])[0])
                     SC.compare_fields(res, "replace refs / grafts present", inp, v2, sv2, fields,
                                       label="specification on the stored object graph (replacements and grafts ignored)")
+                # ROOT arguments whose resolution READS objects (R~1, R^{tree}, R:, R:dir) name the stored objects too: the
+                # report equals the one for the object id that git gives for the spelling with replacement and grafts off
+                cref = [(n, x) for n, x in sc.refs if sc.objects[x]["kind"] == "commit"]
+                if cref:
+                    rn, rx = rng.choice(cref)
+                    spells = [rn.decode("latin1") + sfx for sfx in ("~1", "^{tree}", ":", "^{}", "^")]
+                    for mode_, nm_, ref_ in sc.objects[sc.objects[rx]["tree"]]["entries"][:2]:
+                        try:
+                            spells.append(rn.decode("utf-8") + ":" + nm_.decode("utf-8"))
+                        except UnicodeDecodeError:
+                            pass
+                    tenv = dict(env, GIT_GRAFT_FILE="/dev/null")
+                    for sp in spells:
+                        tr = subprocess.run(["git", "--no-replace-objects", "rev-parse", "--verify", "--end-of-options", sp], cwd=d, env=tenv,
+                                            stdout=subprocess.PIPE, stderr=subprocess.PIPE)
+                        if tr.returncode != 0:
+                            continue
+                        want_oid = tr.stdout.decode().strip()
+                        a_sp = subprocess.run([ctx["bins"]["sizer"], "--json", "--no-progress", "--names=none", sp], cwd=d, env=env, stdout=subprocess.PIPE, stderr=subprocess.PIPE)
+                        a_id = subprocess.run([ctx["bins"]["sizer"], "--json", "--no-progress", "--names=none", want_oid], cwd=d, env=env, stdout=subprocess.PIPE, stderr=subprocess.PIPE)
+                        res.case(("root-spelling-under-replace", sp, tuple(sc.oids)), True)
+                        if a_sp.returncode != a_id.returncode or a_sp.stdout != a_id.stdout:
+                            res.violations.append(vlib.Violation(
+                                "with replace refs / grafts present, ROOT %r is not measured as the stored object it names (%s)" % (sp, want_oid), inp,
+                                expected=a_id.stdout[:400].decode("latin1"), observed=(a_sp.stdout or a_sp.stderr)[:400].decode("latin1")))
+                # ... also when the configuration explicitly ENABLES replacement (core.useReplaceRefs=true overrides git's
+                # --no-replace-objects flag unless it is countermanded), in whatever scope
+                if after.returncode == 0:
+                    glob = os.path.join(scratch, "userepl%d.cfg" % it)
+                    open(glob, "w").write("[core]\n\tuseReplaceRefs = true\n")
+                    git(["config", "core.useReplaceRefs", "true"], d, env, check=False)
+                    variants = {"core.useReplaceRefs=true in the repository's config": env}
+                    for what, e4 in list(variants.items()):
+                        pr = subprocess.run([ctx["bins"]["sizer"]] + args, cwd=d, env=e4, stdout=subprocess.PIPE, stderr=subprocess.PIPE)
+                        res.case(("useReplaceRefs", what, tuple(sc.oids)), True)
+                        if pr.returncode != 0 or pr.stdout != after.stdout:
+                            res.violations.append(vlib.Violation("replace refs change the report when %s" % what, inp,
+                                                                 expected=after.stdout[:400].decode(), observed=(pr.stdout or pr.stderr)[:400].decode("latin1"),
+                                                                 cls="core-useReplaceRefs-true-overrides-no-replace-objects"))
+                    git(["config", "--unset-all", "core.useReplaceRefs"], d, env, check=False)
+                    for what, e4 in (("core.useReplaceRefs=true in the global config", dict(env, GIT_CONFIG_GLOBAL=glob)),
+                                     ("core.useReplaceRefs=true through GIT_CONFIG_COUNT", dict(env, GIT_CONFIG_COUNT="1", GIT_CONFIG_KEY_0="core.useReplaceRefs", GIT_CONFIG_VALUE_0="true")),
+                                     ("GIT_NO_REPLACE_OBJECTS=0 in the caller's environment", dict(env, GIT_NO_REPLACE_OBJECTS="0")),
+                                     ("GIT_REPLACE_REF_BASE pointing elsewhere", dict(env, GIT_REPLACE_REF_BASE="refs/nowhere/"))):
+                        pr = subprocess.run([ctx["bins"]["sizer"]] + args, cwd=d, env=e4, stdout=subprocess.PIPE, stderr=subprocess.PIPE)
+                        res.case(("useReplaceRefs", what, tuple(sc.oids)), True)
+                        if pr.returncode != 0 or pr.stdout != after.stdout:
+                            res.violations.append(vlib.Violation("replace refs change the report when %s" % what, inp,
+                                                                 expected=after.stdout[:400].decode(), observed=(pr.stdout or pr.stderr)[:400].decode("latin1"),
+                                                                 cls="core-useReplaceRefs-true-overrides-no-replace-objects" if "useReplaceRefs" in what else None))
             # shallow marker: refused however the repository is addressed
             for gd in (gitdir, bare):
                 with open(os.path.join(gd, "shallow"), "w") as f:
